@@ -149,6 +149,37 @@ def main():
         n += 1
         if st1 == 'in' and st2 == 'in' and not (np.isfinite(got) and abs(got - (w1 + w2)) <= 1e-7 * max(1.0, abs(w1 + w2))):
             return dict(reproduced=True, call='check_prior(k=%r, m=%r) with prior %r' % (v1, v2, entries), observed=float(got), expected=w1 + w2)
+    # the posterior the sampler sees (get_likelihood_function of both inference interfaces, with a recording likelihood object): minus infinity
+    # wherever the prior rejects - whichever way the prior signals the rejection - and log-density + log-likelihood inside the support
+    from bioscrape.pid_interfaces import DeterministicInference, StochasticInference
+
+    class _LL:
+        def set_init_params(self, d):
+            pass
+
+        def py_log_likelihood(self):
+            return -3.25
+    for it in range(SPEC.get('rounds', 400) // 2):
+        fam = rng.choice(fams)
+        ps = gen(rng, fam)
+        for v in [rng.uniform(-3, 6), -1.0, -0.25, 0.5, 1.5]:
+            for positive in (False, True):
+                for cls, field in ((DeterministicInference, 'LL_det'), (StochasticInference, 'LL_stoch')):
+                    st, want = oracle(fam, ps, float(v))
+                    if positive and v < 0:
+                        st = 'out'
+                    if st == 'boundary':
+                        continue
+                    o = object.__new__(cls)
+                    o.prior = {'p': [fam] + list(ps) + (['positive'] if positive else [])}
+                    o.params_to_estimate, o.default_parameters, o.log_space_parameters, o.debug, o.M = ['p'], {'p': 1.0}, False, False, None
+                    setattr(o, field, _LL())
+                    got = o.get_likelihood_function(np.array([v]))
+                    n += 1
+                    ok = (got == -np.inf) if st == 'out' else (np.isfinite(got) and abs(got - (want - 3.25)) <= 1e-7 * max(1.0, abs(want)))
+                    if not ok:
+                        return dict(reproduced=True, call='%s.get_likelihood_function([%r]) with prior %r and log-likelihood -3.25' % (cls.__name__, float(v), o.prior),
+                                    observed=float(got), expected='-inf (rejected by the prior)' if st == 'out' else want - 3.25)
     return dict(reproduced=False, evaluations=n)
 
 
